@@ -1,1 +1,73 @@
-fn main() {}
+//! mon-client: runtime monitors over the real `mithril-client` database download / verification code.
+//!   mon-client C10 --tier quick|thorough      restored database accepted only if every file is the certified one
+//!   mon-client C19 --tier quick|thorough      only verified immutables and manifest-vouched ancillaries get restored
+//! Optional: `--only <shard>:<world>:<case>` (C10) / `--only <shard>:<case>` (C19) re-runs one case of the seed.
+mod c10;
+mod c19;
+mod common;
+
+use vcore::{Monitor, Tier};
+
+fn parse_only(extra: &[String]) -> Option<Vec<u64>> {
+    let i = extra.iter().position(|a| a == "--only")?;
+    let spec = extra.get(i + 1)?;
+    Some(spec.split(':').filter_map(|p| p.parse().ok()).collect())
+}
+
+fn main() {
+    let args = vcore::parse_args();
+    vcore::install_panic_hook();
+    // before any thread exists: the client's scratch directories go under a private TMPDIR
+    let _ = common::base_tmp();
+    common::redirect_tmpdir();
+    let mut mon = Monitor::new(&args);
+    let threads = vcore::default_threads();
+    let only = parse_only(&args.extra);
+    match args.prop.as_str() {
+        "C10" => {
+            let (shards, worlds, per_world) = match args.tier {
+                Tier::Quick => (16u64, 8usize, 60usize),
+                Tier::Thorough => (64, 24, 160),
+            };
+            match &only {
+                Some(o) if o.len() == 3 => {
+                    let (s, w, c) = (o[0], o[1] as usize, o[2] as usize);
+                    let mut m = mon.fork();
+                    c10::run_shard(s, &mut m, worlds, per_world, Some((w, c)));
+                    mon.merge(m);
+                }
+                _ => vcore::run_shards(&mut mon, shards, threads, |s, m| c10::run_shard(s, m, worlds, per_world, None)),
+            }
+            common::remove_all_temp(shards);
+            mon.finish(
+                "worlds = databases written by the harness (3-40 immutable trios numbered from 0, file sizes 0-8 KiB, 0-2 extra trios beyond the beacon, one world in five with identical file contents, one in eight numbered around 100000); certified list / Merkle root / protocol message from the real CardanoImmutableDigester + CardanoDatabaseSignableBuilder; per world: the untouched directory under every range form (Full, From, UpTo, inner Range), then every directory tampering class (byte flip, truncation, append, deletion, swap of two contents inside / across the range, certified content copied over another name, foreign bytes, extra files, immutable-looking alias names, directory or symlink in place of a file, out-of-range and beyond-beacon tampering, combinations) and every digest-list tampering class (reordered, renamed order-preserving / exchanged names, dropped, added in range / beyond beacon / unparsable, duplicated entry, digest bit flip, digests exchanged, empty, invalid JSON, list updated for a modified file, list renamed with directory rearranged accordingly) with random ranges and allow_missing; digests served as plain JSON (aggregator / cloud) or tar.gz / tar.zst through file:// locations to the real HttpFileDownloader. Non-trivial = the harness's own hashing of the final directory says the request must be rejected (or the served digest values are not the certified sequence), or it is an untouched-directory completeness case; distinct = distinct (signed root, class, range, allow_missing, tampering details, served list).",
+                &["sha256 collision resistance", "MKTree of mithril-common trusted to commit to the sequence of digest values", "the certificate itself is taken as authentic (chain verification is C03)", "a Cardano database starts at immutable 0 (Full / UpTo ranges)"],
+                50,
+            );
+        }
+        "C19" => {
+            let (shards, per_shard) = match args.tier {
+                Tier::Quick => (16u64, 90usize),
+                Tier::Thorough => (64, 500),
+            };
+            match &only {
+                Some(o) if o.len() == 2 => {
+                    let mut m = mon.fork();
+                    c19::run_shard(o[0], &mut m, per_shard, Some(o[1] as usize));
+                    mon.merge(m);
+                }
+                _ => vcore::run_shards(&mut mon, shards, threads, |s, m| c19::run_shard(s, m, per_shard, None)),
+            }
+            common::remove_all_temp(shards);
+            mon.finish(
+                c19::RULE,
+                &["sha256 collision resistance / Ed25519 unforgeability", "the harness knows which manifest data its trusted signer signed; a file counts as manifest-vouched only if (path, sha256) is in that data and the served archive is valid by construction", "bootstrap markers = `clean` (empty) and `protocolMagicId` (magic id of the snapshot's network)", "empty directories created by archives are counted, not judged (the statement speaks of files)"],
+                50,
+            );
+        }
+        other => {
+            eprintln!("mon-client: unknown property {other}");
+            std::process::exit(2);
+        }
+    }
+}
